@@ -194,7 +194,7 @@ def programs_for(tier, seed):
     if tier == "thorough":
         progs = exhaustive(3) + sample_programs(rng, 6000, 4, 7)
     else:
-        progs = exhaustive(2) + sample_programs(rng, 500, 3, 6)
+        progs = exhaustive(2) + sample_programs(rng, 2500, 3, 6)
     seen = set()
     out = []
     for p in progs:
